@@ -5,5 +5,6 @@ pub mod chooser;
 pub mod evidence;
 pub mod panics;
 pub mod selftest;
+pub mod tree;
 
 pub use chooser::{ChoiceRng, Draw, Tail, UnitMode};
